@@ -694,7 +694,9 @@ def c12_limits_reach_search(fb, rep):
                         n_pos += 1
                         rep.ob(clause, 'K10 argument agreement', '%s: %s argument %d (%s) receives the limit of the same name' % (m.sname.split('::')[-1], cname(e).split('::')[-1], k, params[k]),
                                fld == params[k], R.site(m, e), 'passed: %s' % fld, m.sname)
-    rep.floor(clause, 'limit fields passed positionally to startThread / timeLimit', n_pos, 5)
+    # no floor: the comparison is by parameter *name* and applies only where the receiving function names its parameters
+    # after the limits; a renaming of those parameters switches the comparison off, it must not break the analysis
+    rep.counts['C05.12 limit fields passed positionally to startThread / timeLimit (by parameter name)'] = (n_pos, 0)
 
 
 # ----------------------------------------------------------------------------- .13
